@@ -185,8 +185,8 @@ def model_strat(draw, tier, profile):
 
 def parts(tier):
     return [
-        Part("models", strategy=lambda t: model_strat(t, "small"), check=check_model, quick=(5, 150), thorough=(10, 2500), fuzz=(2, 20000)),
-        Part("models_large", strategy=lambda t: model_strat(t, "large"), check=check_model, quick=(1, 120), thorough=(2, 2000)),
+        Part("models", strategy=lambda t: model_strat(t, "small"), check=check_model, quick=(5, 350), thorough=(10, 2500), fuzz=(2, 20000)),
+        Part("models_large", strategy=lambda t: model_strat(t, "large"), check=check_model, quick=(1, 300), thorough=(2, 2000)),
         Part("configurators", strategy=lambda t: S.configurator_spec().map(lambda s: {"model": s}), check=check_cfg,
-             quick=(2, 150), thorough=(4, 2000)),
+             quick=(2, 350), thorough=(4, 2000)),
     ]
